@@ -3,6 +3,9 @@
 use serde_json::Value;
 use vcore::ev::{quiet_panics, Ctx, Tier};
 
+mod c02;
+mod c04;
+mod c05;
 mod c13;
 mod c18;
 
@@ -11,6 +14,9 @@ type ReplayFn = fn(&Ctx, &Value);
 
 fn table(id: &str) -> Option<(RunFn, ReplayFn)> {
     Some(match id {
+        "C02" => (c02::run, c02::replay),
+        "C04" => (c04::run, c04::replay),
+        "C05" => (c05::run, c05::replay),
         "C13" => (c13::run, c13::replay),
         "C18" => (c18::run, c18::replay),
         _ => return None,
